@@ -9,8 +9,18 @@ the ring, the sort plan; an event pointer is the index of the event in the file)
 Primitives (hand-written in WinsortPre.v with the meaning Tools/WinsortDefs.v gives them): find_min_clock (minimum
 clock of [bad0, next)), sort_buf (stable sort by clock of the window into a scratch buffer; cmp_ev is tied by unit
 cmp_winsort), write_stream (overwrite the file in place), rebuild_ring (re-index from `dirty`), malloc / free,
-dbg()/err() logging (dropped).  Not translated: stream_winsort (struct by value, char state, `while (stream_step)`),
-stream_check, process_trace, count_events / index_events / write_events / cmp_ev (inside the primitives).
+dbg()/err() logging (dropped), stream_ev (the event stream_step has just delivered: the environment of a step).
+Also emitted: stream_winsort_body / stream_winsort_init, the body of the loop `while ((ret = stream_step(stream)) == 0)` of
+stream_winsort as a function of the locals it carries (st, empty_regions, updated) and their initial values; the
+translator checks on the AST the parameters, that there is exactly one while loop with exactly that header, that
+ring_reset(r) and `struct sortplan sp` with sp.r = r precede it, that the carried locals are initialised with literals,
+that nothing after the loop calls a translated function and that the function ends with `return 0` (refused otherwise);
+`struct sortplan sp` stands for the one plan of the state (`sp.f = e` -> set_sortplan_f sp_local, `&sp` -> sp_local), the
+char state is an integer; the loop itself is the hand-written fold WinsortPre.run_winsort over the delivered events.
+Likewise stream_check (-c): stream_check_init (the declarations between the first stream_step and the loop),
+stream_check_body and stream_check_end (what follows the status test after the loop), with the same header check and
+the shape `int ret = stream_step(stream); if (ret < 0) fail; if (ret != 0) return 0;` checked on the AST.
+Not translated: process_trace, count_events / index_events / write_events / cmp_ev (inside the primitives).
 
 Additions of this unit to the subset of the core (wrappers around GT.e_val / GT.stmts / GT.function, fail-closed):
   1. `a = b = <literal>;`: the inner assignment, then the outer one with the same literal;
@@ -24,6 +34,7 @@ Additions of this unit to the subset of the core (wrappers around GT.e_val / GT.
   5. kind `zfun`: a function returning an integer through the monad (find_destination: it can die), `return e` =
      `ret e`; `T x = f(..)` with f such a function binds its result;
   6. `p->arr[i]` with arr an array of event pointers: `(ix_ptr_ev arr i)`; `p->arr[i]->a.b`: the getter of the element;
+  8. `if (f(..) < 0) { log; return -1; }` with f an int-status function of this unit: `bind_ (f ..) rest`;
   7. casts between struct ovni_ev *, uint8_t * and void * are the identity (one Gallina type); `(uintptr_t) p` is
      `(ptr_addr sx st p)`; `T *x = malloc(..)` binds the allocation primitive through the pointer cast.
 """
@@ -53,8 +64,25 @@ def _unparen(n):
     return n
 
 
+STRUCT_LOCALS = {}        # name of a by-value struct local -> (struct name, Gallina constant designating it)
+
+
+def _struct_local_member(self, t):
+    """`sp.f` with sp a by-value struct local that stands for the one object of its type in the state: (struct, field, constant)"""
+    if t.get("kind") == "MemberExpr" and not t.get("isArrow"):
+        b = S._strip(t["inner"][0])
+        if b.get("kind") == "DeclRefExpr" and b["referencedDecl"]["name"] in STRUCT_LOCALS:
+            st, const = STRUCT_LOCALS[b["referencedDecl"]["name"]]
+            return st, t["name"], const
+    return None
+
+
 def _e_val(self, n, env):
     k = n.get("kind")
+    if k == "UnaryOperator" and n.get("opcode") == "&":
+        b = S._strip(n["inner"][0])
+        if b.get("kind") == "DeclRefExpr" and b["referencedDecl"]["name"] in STRUCT_LOCALS:
+            return S.Val(STRUCT_LOCALS[b["referencedDecl"]["name"]][1])
     if k in ("ImplicitCastExpr", "CStyleCastExpr"):
         ck = n.get("castKind")
         inner = n["inner"][0]
@@ -192,6 +220,20 @@ def _stmts(self, ss, env, kind):
                 return self.needed(v.safe, "bind (eval %s) (fun v_ =>\nret (LRet v_))" % self.fn_of_state(v.t))
             return self.needed(v.safe, "bind (eval %s) (fun v_ =>\nret v_)" % self.fn_of_state(v.t))
         if k == "BinaryOperator" and s.get("opcode") == "=":
+            sl = _struct_local_member(self, S._strip(s["inner"][0]))
+            if sl is not None:
+                v = self.e_val(s["inner"][1], env)
+                return self.needed(v.safe, "bind_ (set_%s_%s %s %s)\n(%s)" % (sl[0], sl[1], sl[2], self.fn_of_state(v.t), self.stmts(rest, env, kind)))
+        if k == "IfStmt" and len(s["inner"]) == 2:
+            c = _unparen(s["inner"][0])
+            if c.get("kind") == "BinaryOperator" and c.get("opcode") == "<":
+                call, z = S._strip(c["inner"][0]), S._strip(c["inner"][1])
+                if call.get("kind") == "CallExpr" and self.kinds.get(S._callee(call)) == "action" and z.get("kind") == "IntegerLiteral" and z.get("value") == "0":
+                    # if (f(..) < 0) { log; return -1; }  with f an int-status function (0 / -1)
+                    if not self.is_fail_block(s["inner"][1], kind):
+                        self.bad(s, "a failing call must be followed by { log; return -1; } only")
+                    return "bind_ %s\n(%s)" % (self.call_action(call, env), self.stmts(rest, env, kind))
+        if k == "BinaryOperator" and s.get("opcode") == "=":
             tgt, rhs = s["inner"]
             r = S._strip(rhs)
             lit = r["inner"][1] if r.get("kind") == "BinaryOperator" and r.get("opcode") == "=" else None
@@ -259,6 +301,203 @@ def _is_list_loop(self, s):
     return name in getattr(S, "LOOP_MACROS", ())
 
 
+def _lit_of(n):
+    while n.get("kind") in ("ImplicitCastExpr", "ParenExpr", "CStyleCastExpr"):
+        n = n["inner"][0]
+    if n.get("kind") in ("IntegerLiteral", "CharacterLiteral"):
+        return int(n["value"])
+    return None
+
+
+def _winsort_body(work, kinds):
+    """the per-event body of stream_winsort: the body of `while ((ret = stream_step(stream)) == 0)` as a function of
+    the locals it carries (st, empty_regions, updated); `struct sortplan sp` stands for the one plan of the state"""
+    cg = G.cg
+    inc, ver = G.ovni_h_dir(work)
+    rel = "src/emu/ovnisort.c"
+    path = os.path.join(G.REPO, rel)
+    tu = '#include "%s"\n' % path
+    incs = G.incs(inc) + [os.path.dirname(path)]
+    t = S.GT(cg, incs, rel, tu, work, dict(kinds))
+    t.prefix, t.local_fns, t.fn = "", set(kinds), "stream_winsort"
+    d = cg.clang_ast(tu, incs, "stream_winsort", work)
+
+    def refuse(why):
+        raise cg.Unsupported("UNSUPPORTED %s function stream_winsort: %s" % (rel, why))
+    params = [c for c in d["inner"] if c["kind"] == "ParmVarDecl"]
+    if [(p["name"], S._norm_ptr(S._qt(p))) for p in params] != [("stream", "struct stream *"), ("r", "struct ring *")]:
+        refuse("parameters are not (struct stream *stream, struct ring *r)")
+    body = [c for c in d["inner"] if c["kind"] == "CompoundStmt"][0]
+    stmts = [x for x in body.get("inner", []) if x["kind"] != "NullStmt"]
+    wi = [i for i, x in enumerate(stmts) if x["kind"] == "WhileStmt"]
+    if len(wi) != 1:
+        refuse("expected exactly one while loop")
+    w = stmts[wi[0]]
+    # header: while ((ret = stream_step(stream)) == 0)
+    c = _unparen(w["inner"][0])
+    ok = c.get("kind") == "BinaryOperator" and c.get("opcode") == "==" and _lit_of(c["inner"][1]) == 0
+    if ok:
+        a = _unparen(c["inner"][0])
+        ok = a.get("kind") == "BinaryOperator" and a.get("opcode") == "=" and \
+            S._strip(a["inner"][0]).get("referencedDecl", {}).get("name") == "ret"
+        if ok:
+            call = S._strip(a["inner"][1])
+            ok = call.get("kind") == "CallExpr" and S._callee(call) == "stream_step" and len(call["inner"]) == 2 and \
+                S._strip(call["inner"][1]).get("referencedDecl", {}).get("name") == "stream"
+    if not ok:
+        refuse("the loop header is not `while ((ret = stream_step(stream)) == 0)`")
+    # prologue: the locals carried by the loop and their initial values; ring_reset(r); sp.r = r
+    inits, calls, sp_fields = {}, [], {}
+    for x in stmts[:wi[0]]:
+        if x["kind"] == "DeclStmt":
+            for v in x["inner"]:
+                ii = [q for q in v.get("inner", []) if q.get("kind") != "FullComment"]
+                inits[v["name"]] = (S._qt(v), ii[0] if ii else None)
+        elif x["kind"] == "CallExpr":
+            calls.append((S._callee(x), [S._strip(q).get("referencedDecl", {}).get("name") for q in x["inner"][1:]]))
+        elif x["kind"] == "BinaryOperator" and x.get("opcode") == "=":
+            tg = S._strip(x["inner"][0])
+            if tg.get("kind") == "MemberExpr" and S._strip(tg["inner"][0]).get("referencedDecl", {}).get("name") == "sp":
+                sp_fields[tg["name"]] = x["inner"][1]
+    if ("ring_reset", ["r"]) not in calls:
+        refuse("ring_reset(r) is not called before the loop")
+    if inits.get("sp", ("",))[0] != "struct sortplan" or S._strip(sp_fields.get("r", {"kind": ""})).get("referencedDecl", {}).get("name") != "r":
+        refuse("no `struct sortplan sp` with sp.r = r before the loop")
+    carried = ["st", "empty_regions", "updated"]
+    for nm, ty in (("st", "char"), ("empty_regions", "size_t"), ("updated", "size_t")):
+        if inits.get(nm, ("", None))[0] != ty or inits[nm][1] is None or _lit_of(inits[nm][1]) is None:
+            refuse("local %s is not a %s initialised with a literal before the loop" % (nm, ty))
+    # epilogue: nothing after the loop touches the file or the ring (only the status / fdatasync / close)
+    for x in stmts[wi[0] + 1:]:
+        bad = []
+
+        def walk(q):
+            if q.get("kind") == "CallExpr" and S._callee(q) in kinds:
+                bad.append(S._callee(q))
+            for z in q.get("inner", []) or []:
+                if isinstance(z, dict):
+                    walk(z)
+        walk(x)
+        if bad:
+            refuse("call of %s after the loop" % bad[0])
+    last = stmts[-1]
+    if last["kind"] != "ReturnStmt" or _lit_of(last["inner"][0]) != 0:
+        refuse("the function does not end with `return 0`")
+    env = {"stream": {"g": "stream", "cty": "struct stream *", "init": True},
+           "r": {"g": "r", "cty": "struct ring *", "init": True}}
+    for nm in carried:
+        env[nm] = {"g": t.gname(nm), "cty": inits[nm][0], "init": True}
+    STRUCT_LOCALS["sp"] = ("sortplan", "sp_local")
+    cgn = [env[nm]["g"] for nm in carried]
+    t.loop_ctx = [cgn]
+    try:
+        term = t.stmts([w["inner"][1]], env, "action")
+    finally:
+        t.loop_ctx = []
+        STRUCT_LOCALS.clear()
+    init_t = ", ".join(t.e_val(inits[nm][1], env).t for nm in carried)
+    head = "(* %s: the body of `while ((ret = stream_step(stream)) == 0)` in stream_winsort, as a function of the carried locals (%s) *)\n" % (rel, ", ".join(carried))
+    return head + "Definition stream_winsort_init : Z * Z * Z := (%s).\n" % init_t + \
+        "Definition stream_winsort_body (stream : ptr_stream) (r : ptr_ring) (c_ : Z * Z * Z) : M (lres (Z * Z * Z)) :=\n%s.\n" % S.indent(
+            _untuple(cgn, "c_", term))
+
+
+def _while_header_ok(w):
+    """`while ((ret = stream_step(stream)) == 0)`"""
+    c = _unparen(w["inner"][0])
+    if not (c.get("kind") == "BinaryOperator" and c.get("opcode") == "==" and _lit_of(c["inner"][1]) == 0):
+        return False
+    a = _unparen(c["inner"][0])
+    if not (a.get("kind") == "BinaryOperator" and a.get("opcode") == "=" and S._strip(a["inner"][0]).get("referencedDecl", {}).get("name") == "ret"):
+        return False
+    call = S._strip(a["inner"][1])
+    return call.get("kind") == "CallExpr" and S._callee(call) == "stream_step" and len(call["inner"]) == 2 and \
+        S._strip(call["inner"][1]).get("referencedDecl", {}).get("name") == "stream"
+
+
+def _is_ret_lt0_fail(t, x):
+    """`if (ret < 0) { log; return -1; }`"""
+    if x.get("kind") != "IfStmt" or len(x["inner"]) != 2:
+        return False
+    c = _unparen(x["inner"][0])
+    return c.get("kind") == "BinaryOperator" and c.get("opcode") == "<" and \
+        S._strip(c["inner"][0]).get("referencedDecl", {}).get("name") == "ret" and _lit_of(c["inner"][1]) == 0 and \
+        t.is_fail_block(x["inner"][1], "action")
+
+
+def _check_body(work, kinds):
+    """stream_check (-c): the statements between the first stream_step and the loop (stream_check_init), the body of
+    `while ((ret = stream_step(stream)) == 0)` (stream_check_body) and the statements after the status test that follows
+    the loop (stream_check_end), as functions of the locals the loop carries"""
+    cg = G.cg
+    inc, ver = G.ovni_h_dir(work)
+    rel = "src/emu/ovnisort.c"
+    path = os.path.join(G.REPO, rel)
+    tu = '#include "%s"\n' % path
+    incs = G.incs(inc) + [os.path.dirname(path)]
+    t = S.GT(cg, incs, rel, tu, work, dict(kinds))
+    t.prefix, t.local_fns, t.fn = "", set(kinds), "stream_check"
+    d = cg.clang_ast(tu, incs, "stream_check", work)
+
+    def refuse(why):
+        raise cg.Unsupported("UNSUPPORTED %s function stream_check: %s" % (rel, why))
+    params = [c for c in d["inner"] if c["kind"] == "ParmVarDecl"]
+    if [(p["name"], S._norm_ptr(S._qt(p))) for p in params] != [("stream", "struct stream *")]:
+        refuse("parameters are not (struct stream *stream)")
+    body = [c for c in d["inner"] if c["kind"] == "CompoundStmt"][0]
+    stmts = [x for x in body.get("inner", []) if x["kind"] != "NullStmt"]
+    wi = [i for i, x in enumerate(stmts) if x["kind"] == "WhileStmt"]
+    if len(wi) != 1 or not _while_header_ok(stmts[wi[0]]):
+        refuse("expected exactly one loop `while ((ret = stream_step(stream)) == 0)`")
+    wi = wi[0]
+    # int ret = stream_step(stream); if (ret < 0) fail; if (ret != 0) return 0;
+    s0 = stmts[0]
+    ok = s0["kind"] == "DeclStmt" and len(s0["inner"]) == 1 and s0["inner"][0].get("name") == "ret"
+    if ok:
+        call = S._strip([q for q in s0["inner"][0].get("inner", []) if q.get("kind") != "FullComment"][0])
+        ok = call.get("kind") == "CallExpr" and S._callee(call) == "stream_step"
+    if not ok or not _is_ret_lt0_fail(t, stmts[1]):
+        refuse("does not start with `int ret = stream_step(stream); if (ret < 0) { log; return -1; }`")
+    s2 = stmts[2]
+    c2 = _unparen(s2["inner"][0]) if s2["kind"] == "IfStmt" and len(s2["inner"]) == 2 else {}
+    r2 = s2["inner"][1] if c2 else {}
+    r2 = r2["inner"][0] if r2.get("kind") == "CompoundStmt" and len(r2.get("inner", [])) == 1 else r2
+    if not (c2.get("kind") == "BinaryOperator" and c2.get("opcode") == "!=" and S._strip(c2["inner"][0]).get("referencedDecl", {}).get("name") == "ret"
+            and _lit_of(c2["inner"][1]) == 0 and r2.get("kind") == "ReturnStmt" and _lit_of(r2["inner"][0]) == 0):
+        refuse("the third statement is not `if (ret != 0) return 0;`")
+    if not _is_ret_lt0_fail(t, stmts[wi + 1]):
+        refuse("the loop is not followed by `if (ret < 0) { log; return -1; }`")
+    pre = stmts[3:wi]
+    if any(x["kind"] != "DeclStmt" for x in pre):
+        refuse("only declarations are expected between the first step and the loop")
+    env0 = {"stream": {"g": "stream", "cty": "struct stream *", "init": True}}
+    names = []
+    envd = dict(env0)
+    for x in pre:
+        for v in x["inner"]:
+            names.append(v["name"])
+            envd[v["name"]] = {"g": t.gname(v["name"]), "cty": S._qt(v), "init": True, "_node": v}
+    carried = []
+    _assigned_locals(stmts[wi]["inner"][1], envd, carried)
+    if "ret" in carried or any(nm not in names for nm in carried):
+        refuse("the loop assigns a local that is not declared between the first step and the loop")
+    cgn = [envd[nm]["g"] for nm in carried]
+    tys = [t.gtype(envd[nm]["_node"]) for nm in carried]
+    T = " * ".join(tys)
+    t.loop_ctx = [cgn]
+    try:
+        init_term = t.stmts(pre, dict(env0), "action")
+        body_term = t.stmts([stmts[wi]["inner"][1]], {k: v for k, v in envd.items()}, "action")
+    finally:
+        t.loop_ctx = []
+    end_term = t.stmts(stmts[wi + 2:], {k: v for k, v in envd.items()}, "action")
+    head = "(* %s: stream_check around its loop `while ((ret = stream_step(stream)) == 0)`; carried locals (%s) *)\n" % (rel, ", ".join(carried))
+    return head + \
+        "Definition stream_check_init (stream : ptr_stream) : M (lres (%s)) :=\n%s.\n" % (T, S.indent(init_term)) + \
+        "Definition stream_check_body (stream : ptr_stream) (c_ : %s) : M (lres (%s)) :=\n%s.\n" % (T, T, S.indent(_untuple(cgn, "c_", body_term))) + \
+        "Definition stream_check_end (c_ : %s) : M unit :=\n%s.\n" % (T, S.indent(_untuple(cgn, "c_", end_term)))
+
+
 def gen(work):
     S.G = G
     S.GT.e_val = _e_val
@@ -268,6 +507,7 @@ def gen(work):
     S.SX_T, S.ST_T = "wenv", "wstate_c"
     S.PTR = {
         "struct ring *": ("ptr_ring", True),
+        "struct stream *": ("ptr_stream", True),
         "struct sortplan *": ("ptr_sortplan", True),
         "struct ovni_ev *": ("ptr_ev", True),
         "struct ovni_ev * *": ("ptr_evarr", True),
@@ -277,7 +517,7 @@ def gen(work):
     S.STRUCTS = {"struct ovni_ev *": "ptr_ev"}
     S.NONNULL_LINK = set()
     S.PRIM_ACTION = set()
-    S.PRIM_VALUE = {"find_min_clock"}
+    S.PRIM_VALUE = {"find_min_clock", "stream_ev", "ovni_ev_get_clock"}
     S.PRIM_ALLOC = {"malloc"}
     S.PRIM_PROC = {"sort_buf", "write_stream", "rebuild_ring", "free"}
     S.OUT_ACTION = {}
@@ -285,6 +525,8 @@ def gen(work):
     S.INDIRECT_CALLS = {}
     S.MACRO_PRIM = set()
     ctext, defs = S.translate_files(work, UNITS)
+    defs.append(_winsort_body(work, dict((f, k) for _, fns in UNITS for f, k in fns)))
+    defs.append(_check_body(work, dict((f, k) for _, fns in UNITS for f, k in fns)))
     text = (G.HEADER % "src/emu/ovnisort.c (unit winsort)") + \
         "From Coq Require Import ZArith List Bool.\n" \
         "From OV Require Import Base.CInt Tools.WinsortPre.\n" \
